@@ -103,6 +103,8 @@ func GenRecordValue(t *rapid.T, p *Plan) ([]byte, string) {
 		{"token wrong type", fmt.Sprintf(`{"id":%s,"token":%s}`, q(id), wt)},
 		{"id wrong type", fmt.Sprintf(`{"id":%s,"token":%s}`, wt, tok)},
 		{"priority wrong type", fmt.Sprintf(`{"id":%s,"token":%s,"priority":"high"}`, q(id), tok)},
+		{"phantom payload, priority in another number notation or beyond int64", fmt.Sprintf(`{"id":"phantom","token":"phantom-token","priority":%s}`,
+			rapid.SampledFrom([]string{"1e19", "9223372036854775808", "18446744073709551615", "1e300", "-1e19", "10.0", "1e1", "2.5", "9007199254740993"}).Draw(t, "rv_bignum"))},
 		{"token missing", fmt.Sprintf(`{"id":%s}`, q(id))},
 		{"id missing", fmt.Sprintf(`{"token":%s}`, tok)},
 		{"duplicate token key, own last", fmt.Sprintf(`{"id":%s,"token":"x","token":%s}`, q(id), tok)},
